@@ -190,6 +190,8 @@ PLAN = {
         "engines": lambda tier: [_e("release", "schemamc", "c03")] + [
             _e("release", "schemamc", "c03", "--large", str(n), env=_rayon(t))
             for (n, t) in ([(1000, 1), (3000, 16)] if tier == "quick" else [(1000, 1), (1000, 2), (3000, 16), (5000, 1), (5000, 2), (5000, 16)])
+        ] + [
+            dict(_shared(_e("release", "schemamc", "c15", tier="quick"), r"not sorted|is not in order", "C03 for stores sorted on late-bound integer keys (positions of other entries): the stores of the C15 enumeration that are declared sorted on a reference are stored in non-decreasing order of that key as the reader reads it"), side=True),
         ],
         "assumptions": [
             "keys come from a 40-string universe over {00,61,ff} (length<=3) and from the integer boundary alphabets; subsets up to the stated size are enumerated completely",
